@@ -62,7 +62,10 @@ func (c *Config) VerifyConfig(schema base.LogSchema) error {
 		return fmt.Errorf(".pattern: %w", err)
 	}
 	for _, name := range re.SubexpNames() {
-		if _, err := schema.CreateFieldLocator(c.Key); err != nil {
+		if len(name) == 0 {
+			continue
+		}
+		if _, err := schema.CreateFieldLocator(name); err != nil {
 			return fmt.Errorf(".pattern: named capture '%s' is invalid: %w", name, err)
 		}
 	}
